@@ -50,6 +50,7 @@ def run(ctx):
     # invalid tokens must reach the grammar to be refused: the text is not rewritten on the way (shared with C11.D8)
     from . import c11
     c11._text_chain(ctx, m, rule='C12.D3')
+    c11.filter_bypass(ctx, m, 'C12.D3')
 
 
 PURE_MODULES = ('base64', 'binascii', 'six', 're', 'datetime', 'math', 'numbers', 'copy')
